@@ -90,6 +90,14 @@ func ruleQueryCacheV1(e *Engine, r *Reporter) {
 		c, ok := in.(ssa.CallInstruction)
 		return ok && isCacheSet(c)
 	})
+	if setAt != nil && delegate == nil {
+		// the resolve-and-store stage was split off: the delegate call sits with the Set
+		eachInstr(setAt.Parent(), false, func(in ssa.Instruction) {
+			if c, ok := in.(ssa.CallInstruction); ok && c.Common().IsInvoke() && c.Common().Method.Name() == "ResolveCheck" {
+				delegate = c
+			}
+		})
+	}
 	if setAt == nil || get == nil || delegate == nil {
 		blind("querycache-v1-guards: cache.Set / cache.Get / delegate call not found in %s", fname(fn))
 	}
@@ -101,10 +109,14 @@ func ruleQueryCacheV1(e *Engine, r *Reporter) {
 	}
 	r.Check(g1, fname(fn)+" | Set behind !CycleDetected", e.instrPos(set), "cycle-dependent responses are not stored", "a response whose value depends on the dispatch path (cycle cut) can be stored under the path-independent sub-problem key and later served to a request that reaches the sub-problem by another path")
 	var anchor ssa.Instruction = set
+	anchorFn := fn
 	if via != nil {
 		anchor = via
 	}
-	g2, _ := mustPass(fn, anchor, cutSpec{edge: func(f Fact) bool {
+	if delegate.Parent() == set.Parent() { // both in the same (helper) function: judged there
+		anchor, anchorFn = set, set.Parent()
+	}
+	g2, _ := mustPass(anchorFn, anchor, cutSpec{edge: func(f Fact) bool {
 		return f.Kind == "nil" && f.Positive && derivesFrom(f.X, func(v ssa.Value) bool { return v == delegate.(ssa.Value) })
 	}})
 	r.Check(g2, fname(fn)+" | Set behind err==nil", e.instrPos(set), "only successful resolutions are stored", "a failed resolution can be stored in the query cache")
